@@ -82,7 +82,7 @@ func NewFix() *Fix {
 	// the bank precompile's totalSupply() selector, packed without an app instance
 	bankSel := common.FromHex("0x18160ddd")
 	o := world.Options{
-		NumAccounts: 6, NumVals: 2, Coinomics: &cp, FastGov: true, SlashWindow: 4,
+		NumAccounts: 6, NumVals: 2, Coinomics: &cp, FastGov: true, SlashWindow: 10,
 		Balance:    sdkmath.NewIntFromBigInt(new(big.Int).Exp(big.NewInt(10), big.NewInt(24), nil)),
 		ExtraCoins: sdk.NewCoins(sdk.NewInt64Coin("atest", 1000000)),
 		Contracts: []world.GenesisContract{
@@ -438,7 +438,7 @@ func (f *Fix) RunReference(p Plan, tmpl []Template) (History, Trace, *world.Worl
 							Height: w.Header.Height, Time: w.Header.Time, TotalVotingPower: 2})
 					}
 					if tmpl[ti].Downtime {
-						downtimeLeft = 4
+						downtimeLeft = 7
 					}
 				}
 			}
